@@ -119,8 +119,13 @@ SbOK(e) == /\ e.n00 + e.n01 + e.n10 + e.n11 = e.iters
         and no increment made under that lock may be lost ---- *)
 CbOK(e) == e.op \in FenceOps /\ e.done = 1 /\ e.final = e.expect
 
+(* ---- plain C assignment followed by a void read-modify-write in one optimised function: the operation acts on the assigned value ---- *)
+PsOK(e) == /\ e.op \in {"add", "sub", "inc", "dec", "and", "or"} /\ Len(e.init) = e.w /\ Len(e.res) = e.w
+           /\ e.res = Sem(e.op, e.init, e.d, e.d).new
+
 ExperimentOK(e) ==
     CASE e.k = "sb"     -> SbOK(e)
+      [] e.k = "ps"     -> PsOK(e)
       [] e.k = "cb"     -> CbOK(e)
       [] e.k = "rmw"    -> ImageOK(e) /\ \A i \in 1..Len(e.locs) : RmwOK(e.op, e.locs[i], e.iters)
       [] e.k = "big"    -> ImageOK(e) /\ \A i \in 1..Len(e.locs) : BigOK(e.op, e.w, e.locs[i], e.iters)
